@@ -209,6 +209,7 @@ class HTMLFormatter(Formatter):
             void_element_close_prefix,
             cdata_containing_tags,
             empty_attributes_are_booleans,
+            indent=indent,
         )
 
 
@@ -231,6 +232,7 @@ class XMLFormatter(Formatter):
             void_element_close_prefix,
             cdata_containing_tags,
             empty_attributes_are_booleans,
+            indent=indent,
         )
 
 
